@@ -82,6 +82,7 @@ fn main() {
     "statuslist_oneway" => statuslist::oneway(&cex),
     "jws_binding" => jws::binding(&cex),
     "jws_policy" => jws::policy(&cex),
+    "jws_charset" => jws::charset(&cex),
     "state_metadata" => iota::state_metadata(&cex),
     "iota_did" => iota::iota_did(&cex),
     "did_syntax" => did::syntax(&cex),
